@@ -14,21 +14,31 @@ package markup
 // what the parser value held before (C14). That is what justifies the three assumed postconditions the
 // dialogue runner relies on: success, plain text and attribute count are functions of the input.
 //
+// every attribute lies inside the text, counted in characters (C15)
+//@ pred rangesInside(r *ParseResult) {
+//@     forall k int :: {r.Attributes[k]} 0 <= k && k < len(r.Attributes) ==>
+//@         0 <= r.Attributes[k].Position && 0 <= r.Attributes[k].Length && r.Attributes[k].Position + r.Attributes[k].Length <= runeLen(r.Text) }
+//
 //@ func (lineParser *LineParser) ParseMarkup(input string) (res *ParseResult, err error)
 //@   requires lineParser != nil
-//@   track_init lineParser.input, lineParser.reader, lineParser.position, lineParser.sourcePosition
-//@   modifies fields(lineParser), all(strings.Reader.i), all(strings.Reader.prev)
+//@   track_init fields(lineParser)
+//@   modifies fields(lineParser)
 //@   ensures "result-or-error": (err == nil) == (res != nil) && (err == nil ==> fresh(res))
+//@   ensures "ranges-inside-text": err == nil ==> rangesInside(res)
 //@   ensures "assumed:success-is-a-function-of-the-input (C14)": (err == nil) == parseOk(input)
 //@   ensures "assumed:text-and-attribute-count-are-functions-of-the-input (C14)": err == nil ==> res.src == input && res.Text == parsedText(input) && len(res.Attributes) == parsedAttrs(input)
 //
 //@ func (lineParser *LineParser) parseMarkup() (res *ParseResult, err error)
 //@   requires lineParser != nil && inited(lineParser.input)
-//@   tracks lineParser.sourcePosition, lineParser.reader, lineParser.input, lineParser.position
-//@   modifies lineParser.reader, lineParser.position, lineParser.sourcePosition, all(strings.Reader.i), all(strings.Reader.prev)
+//@   tracks fields(lineParser)
+//@   modifies lineParser.reader, lineParser.position, lineParser.sourcePosition
 //@   ensures "result-or-error": (err == nil) == (res != nil) && (err == nil ==> fresh(res))
-//@   loop 0: invariant lineParser.ok() && inited(lineParser.reader) && inited(lineParser.position) && inited(lineParser.sourcePosition) && fresh(markers)
+//@   ensures "ranges-inside-text": err == nil ==> rangesInside(res)
+//@   loop 0: invariant fresh(lineParser.reader) && lineParser.ok() && inited(lineParser.reader) && inited(lineParser.position) && inited(lineParser.sourcePosition) && fresh(markers)
 //@   loop 0: decreases lineParser.rem()
+//@   loop 2: invariant (arrayOf(attributes) == 0 || fresh(attributes)) && 0 <= rangeindex + 1 && 0 <= textLength && textLength == runeLen(trimmedText) &&
+//@           (forall k int :: {attributes[k]} 0 <= k && k <= rangeindex && k < len(attributes) ==>
+//@               0 <= attributes[k].Position && 0 <= attributes[k].Length && attributes[k].Position + attributes[k].Length <= textLength)
 //
 // ---- line_parser.go: totality (C15) and purity (C14) -----------------------------------------------------------
 //
@@ -49,7 +59,7 @@ package markup
 //
 //@ func (lineParser *LineParser) consumeWhitespace() (err error)
 //@   requires lineParser.ok() && inited(lineParser.sourcePosition) && inited(lineParser.reader) && inited(lineParser.input)
-//@   tracks lineParser.sourcePosition, lineParser.reader, lineParser.input, lineParser.position
+//@   tracks fields(lineParser)
 //@   modifies lineParser.reader.i, lineParser.reader.prev, lineParser.sourcePosition
 //@   ensures lineParser.ok() && lineParser.rem() <= old(lineParser.rem()) && inited(lineParser.sourcePosition)
 //@   loop 0: invariant lineParser.ok() && lineParser.rem() <= old(lineParser.rem()) && inited(lineParser.sourcePosition)
@@ -57,31 +67,31 @@ package markup
 //
 //@ func (lineParser *LineParser) expectPeek(expected rune) (match bool, err error)
 //@   requires lineParser.ok() && inited(lineParser.sourcePosition) && inited(lineParser.reader) && inited(lineParser.input)
-//@   tracks lineParser.sourcePosition, lineParser.reader, lineParser.input, lineParser.position
+//@   tracks fields(lineParser)
 //@   modifies lineParser.reader.i, lineParser.reader.prev, lineParser.sourcePosition
 //@   ensures lineParser.ok() && lineParser.rem() <= old(lineParser.rem()) && inited(lineParser.sourcePosition)
 //
 //@ func (lineParser *LineParser) peekNumeric() (match bool, err error)
 //@   requires lineParser.ok() && inited(lineParser.sourcePosition) && inited(lineParser.reader) && inited(lineParser.input)
-//@   tracks lineParser.sourcePosition, lineParser.reader, lineParser.input, lineParser.position
+//@   tracks fields(lineParser)
 //@   modifies lineParser.reader.i, lineParser.reader.prev, lineParser.sourcePosition
 //@   ensures lineParser.ok() && lineParser.rem() <= old(lineParser.rem()) && inited(lineParser.sourcePosition)
 //
 //@ func (lineParser *LineParser) peekWhitespace() (match bool, err error)
 //@   requires lineParser.ok() && inited(lineParser.reader)
-//@   tracks lineParser.sourcePosition, lineParser.reader, lineParser.input, lineParser.position
+//@   tracks fields(lineParser)
 //@   modifies lineParser.reader.i, lineParser.reader.prev
 //@   ensures lineParser.ok() && lineParser.rem() == old(lineParser.rem())
 //
 //@ func (lineParser *LineParser) parseRune(r rune) (err error)
 //@   requires lineParser.ok() && inited(lineParser.sourcePosition) && inited(lineParser.reader) && inited(lineParser.input)
-//@   tracks lineParser.sourcePosition, lineParser.reader, lineParser.input, lineParser.position
+//@   tracks fields(lineParser)
 //@   modifies lineParser.reader.i, lineParser.reader.prev, lineParser.sourcePosition
 //@   ensures lineParser.ok() && lineParser.rem() <= old(lineParser.rem()) && inited(lineParser.sourcePosition)
 //
 //@ func (lineParser *LineParser) parseID() (id string, err error)
 //@   requires lineParser.ok() && inited(lineParser.sourcePosition) && inited(lineParser.reader) && inited(lineParser.input)
-//@   tracks lineParser.sourcePosition, lineParser.reader, lineParser.input, lineParser.position
+//@   tracks fields(lineParser)
 //@   modifies lineParser.reader.i, lineParser.reader.prev, lineParser.sourcePosition
 //@   ensures lineParser.ok() && lineParser.rem() <= old(lineParser.rem()) && inited(lineParser.sourcePosition)
 //@   ensures "consumes-a-rune": err == nil ==> lineParser.rem() < old(lineParser.rem())
@@ -90,7 +100,7 @@ package markup
 //
 //@ func (lineParser *LineParser) parseInteger() (i int, err error)
 //@   requires lineParser.ok() && inited(lineParser.sourcePosition) && inited(lineParser.reader) && inited(lineParser.input)
-//@   tracks lineParser.sourcePosition, lineParser.reader, lineParser.input, lineParser.position
+//@   tracks fields(lineParser)
 //@   modifies lineParser.reader.i, lineParser.reader.prev, lineParser.sourcePosition
 //@   ensures lineParser.ok() && lineParser.rem() <= old(lineParser.rem()) && inited(lineParser.sourcePosition)
 //@   loop 0: invariant lineParser.ok() && lineParser.rem() <= old(lineParser.rem()) && inited(lineParser.sourcePosition)
@@ -98,7 +108,7 @@ package markup
 //
 //@ func (lineParser *LineParser) parseString() (str string, err error)
 //@   requires lineParser.ok() && inited(lineParser.sourcePosition) && inited(lineParser.reader) && inited(lineParser.input)
-//@   tracks lineParser.sourcePosition, lineParser.reader, lineParser.input, lineParser.position
+//@   tracks fields(lineParser)
 //@   modifies lineParser.reader.i, lineParser.reader.prev, lineParser.sourcePosition
 //@   ensures lineParser.ok() && lineParser.rem() <= old(lineParser.rem()) && inited(lineParser.sourcePosition)
 //@   loop 0: invariant lineParser.ok() && lineParser.rem() <= old(lineParser.rem()) && inited(lineParser.sourcePosition)
@@ -106,32 +116,35 @@ package markup
 //
 //@ func (lineParser *LineParser) parseValue() (v Value, err error)
 //@   requires lineParser.ok() && inited(lineParser.sourcePosition) && inited(lineParser.reader) && inited(lineParser.input)
-//@   tracks lineParser.sourcePosition, lineParser.reader, lineParser.input, lineParser.position
+//@   tracks fields(lineParser)
 //@   modifies lineParser.reader.i, lineParser.reader.prev, lineParser.sourcePosition
 //@   ensures lineParser.ok() && lineParser.rem() <= old(lineParser.rem()) && inited(lineParser.sourcePosition)
 //
 //@ func (lineParser *LineParser) parseAttributeMarker() (m attributeMarker, err error)
 //@   requires lineParser.ok() && inited(lineParser.sourcePosition) && inited(lineParser.reader) && inited(lineParser.input) && inited(lineParser.position)
-//@   tracks lineParser.sourcePosition, lineParser.reader, lineParser.input, lineParser.position
+//@   tracks fields(lineParser)
 //@   modifies lineParser.reader.i, lineParser.reader.prev, lineParser.sourcePosition
 //@   ensures lineParser.ok() && lineParser.rem() <= old(lineParser.rem()) && inited(lineParser.sourcePosition)
 //@   ensures "marker-at-the-current-position": err == nil ==> m.position == lineParser.position
 //@   ensures "owns-its-properties": arrayOf(m.properties) == 0 || fresh(m.properties)
 //@   loop 0: invariant lineParser.ok() && lineParser.rem() <= old(lineParser.rem()) && inited(lineParser.sourcePosition) && fresh(properties)
+//@   loop 0: decreases lineParser.rem()
 //
 //@ func (lineParser *LineParser) parseRawTextUpToAttributeClose(markerName string) (raw string, err error)
 //@   requires lineParser.ok() && inited(lineParser.reader) && inited(lineParser.input) && inited(lineParser.position)
-//@   tracks lineParser.sourcePosition, lineParser.reader, lineParser.input, lineParser.position
+//@   tracks fields(lineParser)
 //@   modifies lineParser.reader, lineParser.reader.i, lineParser.reader.prev
 //@   ensures lineParser.ok() && inited(lineParser.reader)
 //@   ensures "reader-over-a-suffix": lineParser.rem() <= old(lineParser.rem())
+//@   ensures "same-reader-or-a-new-one": lineParser.reader == old(lineParser.reader) || fresh(lineParser.reader)
 //
 //@ func (lineParser *LineParser) processReplacementMarker(marker attributeMarker, processor markerProcessor) (text string, err error)
 //@   requires lineParser.ok() && inited(lineParser.reader) && inited(lineParser.input) && inited(lineParser.position) && processor != nil
-//@   tracks lineParser.sourcePosition, lineParser.reader, lineParser.input, lineParser.position
-//@   modifies lineParser.reader, all(strings.Reader.i), all(strings.Reader.prev), elems(marker.properties)
+//@   tracks fields(lineParser)
+//@   modifies lineParser.reader, lineParser.reader.i, lineParser.reader.prev, elems(marker.properties)
 //@   ensures lineParser.ok() && inited(lineParser.reader)
 //@   ensures "reader-over-a-suffix": lineParser.rem() <= old(lineParser.rem())
+//@   ensures "same-reader-or-a-new-one": lineParser.reader == old(lineParser.reader) || fresh(lineParser.reader)
 //
 //@ functype markup.markerProcessor(f, marker) (text string, err error)
 //@   requires marker != nil
@@ -151,7 +164,7 @@ package markup
 //
 //@ func (lineParser *LineParser) buildAttributesFromMarkers(markers []attributeMarker) (attributes []Attribute, err error)
 //@   requires lineParser != nil && inited(lineParser.input)
-//@   tracks lineParser.sourcePosition, lineParser.reader, lineParser.input, lineParser.position
+//@   tracks fields(lineParser)
 //@   ensures "owns-its-result": arrayOf(attributes) == 0 || fresh(attributes)
 //@   loop 0: invariant fresh(attributes) && fresh(unclosedMarkers)
 //@   loop 2: invariant fresh(attributes) && fresh(unclosedMarkers)
@@ -172,3 +185,7 @@ package markup
 //@ func processOrdinal(marker *attributeMarker) (text string, err error)
 //@   requires marker != nil
 //@ func replacePlaceholders(replacement string, value string) (res string)
+//
+//@ func (parseResult *ParseResult) TextForAttribute(attribute Attribute) (res string)
+//@   requires parseResult != nil
+//@   requires "a-returned-attribute": 0 <= attribute.Position && 0 <= attribute.Length && attribute.Position + attribute.Length <= runeLen(parseResult.Text)
